@@ -189,6 +189,15 @@ def validateEach (b : Bounds) (name : String) (keys : List String) : VParams →
       | .ok _ => validateEach b name keys r
     else validateEach b name keys r
 
+/-- `v * f` / `v / f` for a Python float `v` and a non-zero finite factor `f` (exact on finite values; ±inf and NaN pass through
+    for a positive factor - the unit factors are positive) -/
+def Val.mulQ : Val → Rat → Val
+  | .fin q, f => .fin (q * f)
+  | v, _ => v
+def Val.divQ : Val → Rat → Val
+  | .fin q, f => .fin (q / f)
+  | v, _ => v
+
 /-- `Point.__add__` / `Point.__sub__` (coordinates resolved by the callers) -/
 def ptAdd (p q : Pt) : Pt := p.add q
 def ptSub (p q : Pt) : Pt := p.sub q
